@@ -431,7 +431,7 @@ def bounded(tier, seed):
                 for _ in range(8 if tier == 'quick' else 60):
                     cases.append([q for q in qs if rnd.random() < rate])
             for errq in cases:
-                if time.time() - t0 > (150 if tier == 'quick' else 1500):
+                if time.time() - t0 > (60 if tier == "quick" else 1500):
                     break
                 w = native_track(dec, cls, size, errq, seed=rnd.randint(0, 5))
                 ev += 1
